@@ -78,6 +78,10 @@ macro_rules! dispatch {
                 let $p = &props::scan::C16;
                 $body
             }
+            "C10" => {
+                let $p = &props::stream::C10;
+                $body
+            }
             "C11" => {
                 let $p = &props::writer::WriterProp { c14: false };
                 $body
@@ -102,6 +106,7 @@ fn components(property: &str) -> Vec<&'static str> {
         "C02" => vec!["C02"],
         "C08" => vec!["C08"],
         "C09" => vec!["C09p", "C09r"],
+        "C10" => vec!["C10"],
         "C11" => vec!["C11"],
         "C13" => vec!["C13"],
         "C16" => vec!["C16"],
@@ -152,6 +157,9 @@ fn run_part<P: Prop>(p: &P, tier: Tier, seed: u64, outfile: &str) {
     kv.put("wall_s", format!("{:.3}", out.wall_s));
     for (k, v) in &out.stats.counters {
         kv.put(&format!("counter.{k}"), v);
+    }
+    for (k, v) in &out.stats.maxes {
+        kv.put(&format!("counter.max.{k}"), v);
     }
     if !out.stats.bits.is_empty() {
         kv.put("counter.reach.coverage_bitmap_cases_hit", out.stats.bits_set());
@@ -214,6 +222,12 @@ fn cmd_replay(path: &str) -> i32 {
     };
     let kv = Kv::parse(&text);
     let build = kv.get("build").unwrap_or("simdbg").to_string();
+    if build == "miri" && !cfg!(miri) {
+        let (code, out) = run_miri(&["replay", path], None);
+        println!("{out}");
+        // under Miri any abnormal end (UB report or a model violation) reproduces the finding
+        return if code == 0 { 0 } else { 1 };
+    }
     if build != build_name() && !cfg!(miri) {
         // hand over to the build that found it
         let st = Command::new(other_build_exe(&build))
@@ -252,6 +266,159 @@ fn cmd_replay(path: &str) -> i32 {
             }
         }
     }
+}
+
+/// Runs the simulator under Miri (`cargo +nightly miri run`), returns (exit code, stdout+stderr).
+fn run_miri(args: &[&str], log: Option<&str>) -> (i32, String) {
+    let mut cmd = Command::new("cargo");
+    cmd.current_dir(format!("{VERIF_DIR}/sim"))
+        .env("CARGO_NET_OFFLINE", "true")
+        .args([
+            "+nightly",
+            "miri",
+            "run",
+            "--offline",
+            "--release",
+            "--quiet",
+            "--target-dir",
+            &format!("{VERIF_DIR}/target/miri"),
+            "--",
+        ])
+        .args(args);
+    match cmd.output() {
+        Ok(o) => {
+            let mut text = String::from_utf8_lossy(&o.stdout).to_string();
+            text.push_str(&String::from_utf8_lossy(&o.stderr));
+            if let Some(l) = log {
+                let _ = std::fs::write(l, &text);
+            }
+            (o.status.code().unwrap_or(-1), text)
+        }
+        Err(e) => (-2, format!("cannot start cargo miri: {e}")),
+    }
+}
+
+struct MiriJob {
+    comp: &'static str,
+    lo: u64,
+    hi: u64,
+}
+
+struct MiriOutcome {
+    runs: u64,
+    steps: u64,
+    /// (component, run, description)
+    findings: Vec<(String, u64, String)>,
+    errors: Vec<String>,
+    wall_s: f64,
+}
+
+/// Memory oracle for C14: the same kinds of histories (plus scanner and parser drives) executed
+/// under Miri in parallel interpreter processes.
+fn run_miri_parts(tier: Tier, seed: u64) -> MiriOutcome {
+    let start = std::time::Instant::now();
+    let mut out = MiriOutcome {
+        runs: 0,
+        steps: 0,
+        findings: vec![],
+        errors: vec![],
+        wall_s: 0.0,
+    };
+    // build once, so that the parallel jobs do not queue up behind the build lock
+    let (code, text) = run_miri(&["miri-noop"], Some(&format!("{VERIF_DIR}/target/parts/miri-build.log")));
+    if code != 0 || !text.contains("MIRI-NOOP") {
+        out.errors.push(format!("Miri build/run failed (exit {code}): {}", text.lines().rev().take(8).collect::<Vec<_>>().join(" | ")));
+        return out;
+    }
+    let scale: u64 = match tier {
+        Tier::Quick => 1,
+        Tier::Thorough => 12,
+    };
+    let plan: [(&'static str, u64, u64); 4] = [("C14r", 40, 6), ("C14w", 32, 4), ("C13", 64, 4), ("C01", 12, 2)];
+    let mut jobs = vec![];
+    for (comp, per_job, njobs) in plan {
+        for j in 0..njobs {
+            jobs.push(MiriJob {
+                comp,
+                lo: j * per_job * scale,
+                hi: (j + 1) * per_job * scale,
+            });
+        }
+    }
+    let results: Vec<(usize, i32, String)> = std::thread::scope(|sc| {
+        let hs: Vec<_> = jobs
+            .iter()
+            .enumerate()
+            .map(|(i, j)| {
+                sc.spawn(move || {
+                    let log = format!("{VERIF_DIR}/target/parts/miri-{}-{}.log", j.comp, j.lo);
+                    let (code, text) = run_miri(
+                        &[
+                            "miri-batch",
+                            j.comp,
+                            &j.lo.to_string(),
+                            &j.hi.to_string(),
+                            &seed.to_string(),
+                        ],
+                        Some(&log),
+                    );
+                    (i, code, text)
+                })
+            })
+            .collect();
+        hs.into_iter().map(|h| h.join().unwrap()).collect()
+    });
+    for (i, code, text) in results {
+        let j = &jobs[i];
+        let mut last_run: Option<u64> = None;
+        let mut done = false;
+        for line in text.lines() {
+            if let Some(rest) = line.strip_prefix("MIRI-RUN ") {
+                last_run = rest.split(' ').nth(1).and_then(|r| r.parse().ok());
+            } else if line.starts_with("MIRI-DONE ") {
+                done = true;
+                if let Some(s) = line.split("steps=").nth(1) {
+                    out.steps += s.trim().parse::<u64>().unwrap_or(0);
+                }
+            } else if let Some(rest) = line.strip_prefix("MIRI-MODEL-VIOLATION ") {
+                // model violations only count for the C14 components themselves
+                if j.comp.starts_with("C14") {
+                    let run = rest.split(' ').nth(1).and_then(|r| r.parse().ok()).unwrap_or(0);
+                    out.findings.push((j.comp.to_string(), run, format!("model violation under Miri: {rest}")));
+                }
+            }
+        }
+        if done && code == 0 {
+            out.runs += j.hi - j.lo;
+        } else if text.contains("Undefined Behavior") {
+            let run = last_run.unwrap_or(j.lo);
+            out.runs += run.saturating_sub(j.lo) + 1;
+            let what = text
+                .lines()
+                .find(|l| l.contains("Undefined Behavior"))
+                .unwrap_or("")
+                .trim()
+                .to_string();
+            let at = text
+                .lines()
+                .skip_while(|l| !l.contains("Undefined Behavior"))
+                .find(|l| l.trim_start().starts_with("--> "))
+                .unwrap_or("")
+                .trim()
+                .to_string();
+            out.findings.push((j.comp.to_string(), run, format!("{what} {at}")));
+        } else {
+            out.errors.push(format!(
+                "Miri job {} {}..{} ended abnormally (exit {code}): {}",
+                j.comp,
+                j.lo,
+                j.hi,
+                text.lines().rev().take(6).collect::<Vec<_>>().join(" | ")
+            ));
+        }
+    }
+    out.wall_s = start.elapsed().as_secs_f64();
+    out
 }
 
 struct Part {
@@ -429,6 +596,57 @@ fn cmd_check(property: &str, tier: Tier) -> i32 {
         }
     }
 
+    if property == "C14" && std::env::var_os("VERIF_NO_MIRI").is_none() {
+        let m = run_miri_parts(tier, seed);
+        if !m.errors.is_empty() {
+            for e in &m.errors {
+                eprintln!("harness error: {e}");
+            }
+            return 2;
+        }
+        println!(
+            "  component=C14m build=miri runs={} wall_s={:.1} (reader/writer histories, scanners, parser drives under Miri)",
+            m.runs, m.wall_s
+        );
+        evaluations += m.runs;
+        steps += m.steps;
+        comp_json.push(Json::obj(vec![
+            ("component", Json::s("C14m (C14r + C14w + C13 + C01 cases under Miri)")),
+            ("build", Json::s("miri")),
+            ("runs", Json::U(m.runs)),
+            ("distinct_nontrivial", Json::U(0)),
+            ("wall_s", Json::F(m.wall_s)),
+        ]));
+        rules.push("[C14m] the C14r/C14w histories plus C13 scanner cases and C01 parser drives (separate seeded stream, smaller cases) executed under Miri in parallel interpreter processes; any Miri 'Undefined Behavior' report is a violation".to_string());
+        real.push("Miri interpreter as memory oracle (out-of-bounds, invalid references, uninitialised reads, aliasing)".to_string());
+        for (comp, run, what) in m.findings {
+            let path = format!("{VERIF_DIR}/replays/{comp}-miri-{seed}-{run}.replay");
+            let _ = std::fs::create_dir_all(format!("{VERIF_DIR}/replays"));
+            let st = Command::new(other_build_exe("simdbg"))
+                .args(["miri-case", &comp, &run.to_string(), &seed.to_string(), &path])
+                .status();
+            if !matches!(st, Ok(s) if s.success()) {
+                eprintln!("harness error: cannot write replay file for Miri finding {comp} run {run}");
+                return 2;
+            }
+            let sig_full = format!("check=C14.miri component={comp} {what}");
+            if known.matches(property, &sig_full) {
+                println!("KNOWN-FINDING: property={property} {sig_full}");
+                known_hits += 1;
+                continue;
+            }
+            // replay under Miri in a fresh process
+            let (code, _text) = run_miri(&["replay", &path], None);
+            if code == 0 {
+                eprintln!("harness error: Miri finding {comp} run {run} did not reproduce from {path}");
+                return 2;
+            }
+            println!("  violation check=C14.miri build=miri component={comp} run={run}: {what}");
+            println!("VIOLATION property={property} replay={path}");
+            violations += 1;
+        }
+    }
+
     let wall = start.elapsed().as_secs_f64();
     let coverage = Json::obj(vec![
         ("evaluations", Json::U(evaluations)),
@@ -475,6 +693,69 @@ fn cmd_check(property: &str, tier: Tier) -> i32 {
         1
     } else {
         0
+    }
+}
+
+/// The Miri stream of a component (different from both native streams).
+fn miri_tag(id: &str) -> String {
+    format!("{id}/miri")
+}
+
+/// Executes runs lo..hi of a component sequentially in this process (meant to run under Miri,
+/// which is the memory oracle: any UB aborts the interpreter right after the MIRI-RUN line).
+fn miri_batch<P: Prop>(p: &P, lo: u64, hi: u64, seed: u64) {
+    let tag = miri_tag(p.id());
+    let mut st = framework::Stats::default();
+    let mut model = 0;
+    for run in lo..hi {
+        println!("MIRI-RUN {} {}", p.id(), run);
+        let mut rng = rng::Rng::new(rng::mix(seed, &tag, run));
+        let case = p.gen(&mut rng, Tier::Quick);
+        if std::env::args().any(|a| a == "--gen-only") {
+            continue;
+        }
+        let out = p.exec(&case, &mut st);
+        if let Some(v) = out.violation {
+            model += 1;
+            println!(
+                "MIRI-MODEL-VIOLATION {} {} check={} {} :: {}",
+                p.id(),
+                run,
+                v.check,
+                v.signature,
+                v.detail.replace('\n', " ")
+            );
+        }
+    }
+    println!(
+        "MIRI-DONE {} {} {} model_violations={} steps={}",
+        p.id(),
+        lo,
+        hi,
+        model,
+        st.steps
+    );
+}
+
+fn miri_case<P: Prop>(p: &P, run: u64, seed: u64, path: &str) {
+    let tag = miri_tag(p.id());
+    let mut rng = rng::Rng::new(rng::mix(seed, &tag, run));
+    let case = p.gen(&mut rng, Tier::Quick);
+    let v = framework::Violation {
+        check: "C14.miri",
+        signature: format!("Miri reports undefined behaviour in component {}", p.id()),
+        detail: String::new(),
+    };
+    let mut kv = replay_kv(p, seed, run, &case, &v, 0);
+    for e in kv.0.iter_mut() {
+        if e.0 == "build" {
+            e.1 = "miri".to_string();
+        }
+    }
+    let text = format!("# flussab-sim replay file (run under Miri)\n{}", kv.render());
+    if std::fs::write(path, text).is_err() {
+        eprintln!("cannot write {path}");
+        exit(2);
     }
 }
 
@@ -538,6 +819,26 @@ fn main() {
         }
         Some("replay") if args.len() >= 3 => cmd_replay(&args[2]),
         Some("gencheck") => cmd_gencheck(),
+        Some("miri-noop") => {
+            println!("MIRI-NOOP build={}", build_name());
+            0
+        }
+        Some("miri-batch") if args.len() >= 6 => {
+            let lo: u64 = args[3].parse().unwrap_or(0);
+            let hi: u64 = args[4].parse().unwrap_or(0);
+            let seed: u64 = args[5].parse().unwrap_or(DEFAULT_SEED);
+            let comp = args[2].clone();
+            dispatch!(comp.as_str(), p => miri_batch(p, lo, hi, seed));
+            0
+        }
+        Some("miri-case") if args.len() >= 6 => {
+            // regenerate the case of a Miri run natively and write it as a replay file
+            let run: u64 = args[3].parse().unwrap_or(0);
+            let seed: u64 = args[4].parse().unwrap_or(DEFAULT_SEED);
+            let comp = args[2].clone();
+            dispatch!(comp.as_str(), p => miri_case(p, run, seed, &args[5]));
+            0
+        }
         _ => {
             eprintln!(
                 "usage: flussab-sim check <PROPERTY> <quick|thorough> | part <COMP> <tier> <seed> <out> | replay <file>"
